@@ -524,6 +524,26 @@ for _text_limit in ("maxstring", "maxother"):
     "mutants/c16_fix_invariant_added_once_reverted": [
         ("icontract/_decorators.py", "        if not any(existing is self._invariant for existing in invariants):\n", "        if True:\n"),
     ],
+    "mutants/c11_fix_marks_read_anew_at_post_phase_reverted": [
+        (CHK, "                _IN_PROGRESS.set(_get_in_progress() | {mark})\n", "                _IN_PROGRESS.set(in_progress | {mark})\n", "all"),
+    ],
+    "seeded/C10_r5_first_phase_mark_reused_for_postconditions": [
+        (CHK, """            mark = _Mark(flow, id_of_func)
+
+            try:
+                # The marks are read anew: the function might have been suspended in the meantime and resumed
+                # while another check is in progress in this context (whose mark must be kept).
+                _IN_PROGRESS.set(_get_in_progress() | {mark})
+
+                if postconditions:
+""", """            # The mark of the first phase is still in the set of the context (a finished check does not write
+            # the set back, see ``_Mark``), so it is switched on again instead of making and registering a second one.
+            mark.active = True
+
+            try:
+                if postconditions:
+""", "all"),
+    ],
     "mutants/c14_fix_unreadable_class_attribute_reverted": [
         (CHK, """        try:
             value = getattr(cls, name)
